@@ -1241,6 +1241,11 @@ def fixed_cases():
         ("list-first-elem-none-first", "fn main() { let l = [none, ?1]; println(l); }\n", True, "`none` first: the element type is ?any (implicit any)"),
         ("list-first-elem-mixed", 'fn main() { let l = [?1, none, ?"x"]; println(l); }\n', True, "a later element of another option type"),
         ("list-first-elem-mixed-scalar", 'fn main() { let l = [1, 2, "x", 3]; println(l); }\n', True, "a later element of another scalar type, followed by a fitting one"),
+        # an if/else expression takes the type of its ELSE branch (compatible branches may differ: none is ?any)
+        ("if-join-none-then", 'fn main() { let c = true; let x = if c { none } else { ?41 }; println(x.unwrap_or(0) + 1); println((if c { none } else { ?"a" }).unwrap_or("-") + "b"); }\n', False,
+         "`none` in the then branch, a typed option in the else branch: ?int"),
+        ("if-join-none-else", "fn main() { let c = true; let y = if c { ?1 } else { none }; println(y); }\n", True, "`none` in the else branch: ?any (implicit any)"),
+        ("if-join-mismatch", 'fn main() { let c = true; let z = if c { ?1 } else { ?"s" }; println(z); }\n', True, "incompatible option branches"),
         # the identifier of a catch block lives in the catch block only
         ("catch-ident-after", 'fn main() { try { throw("x"); } catch e { println(e.message); } println(e.message); }\n', True, "catch identifier used after the try expression"),
         ("catch-ident-after-fn", 'fn f() -> str { let r = try { "a" } catch err { err.message }; err.message }\nfn main() { println(f()); }\n', True, "catch identifier used after the try expression (function tail)"),
